@@ -146,13 +146,22 @@ class TurnEnv:
         return NS(turn_id=turn, agent_id=agent, now=now, now_ms=now_ms, cfg=self.cfg, config=self.cfg, **extra)
 
     def run(self, agent="A", text="hello", turn=1, now_ms: Optional[int] = NOW_MS, now="auto", plan: Any = None,
-            vclock: Optional[VClock] = None, ctx_extra: Optional[dict] = None, fingerprint: bool = False) -> dict:
-        """plan: None (real planner), a dict spec for mk_plan, or a callable (ctx,state,bundle)->Plan."""
+            vclock: Optional[VClock] = None, ctx_extra: Optional[dict] = None, fingerprint: bool = False, ctx_obj: Any = None) -> dict:
+        """plan: None (real planner), a dict spec for mk_plan, or a callable (ctx,state,bundle)->Plan.
+        ctx_obj: reuse a ctx object of an earlier turn (callers may keep one ctx and advance turn_id / now on it)."""
         import clematis.engine.orchestrator as orch
         from clematis.engine.orchestrator.core import Orchestrator
 
         self.activate()
-        ctx = self.ctx(agent, turn, now_ms, now, **(ctx_extra or {}))
+        if ctx_obj is not None:
+            fresh = self.ctx(agent, turn, now_ms, now, **(ctx_extra or {}))
+            for k_ in ("turn_id", "agent_id", "now", "now_ms"):
+                setattr(ctx_obj, k_, getattr(fresh, k_))
+            for k_, v_ in (ctx_extra or {}).items():
+                setattr(ctx_obj, k_, v_)
+            ctx = ctx_obj
+        else:
+            ctx = self.ctx(agent, turn, now_ms, now, **(ctx_extra or {}))
         out: Dict[str, Any] = {"agent": agent, "turn": turn, "text": text, "exc": None, "line": None}
         cm = contextlib.ExitStack()
         with cm:
